@@ -2,6 +2,7 @@
 C13 — HAVING keeps exactly the rows satisfying its boolean expression.
 -/
 import BW.Proofs.QueryPost
+import BW.Proofs.Having
 
 namespace BW.Props.C13
 open BW.Model BW.Proofs.QueryPost
@@ -36,6 +37,22 @@ example : (newEvaluator [.not, .lpar, .binding [63], .op .eq, .binding [64], .rp
 /-- … and rejects what it cannot build, e.g. `a = b AND c = d` without parentheses. -/
 example : (newEvaluator [.binding [63], .op .eq, .binding [64], .and, .binding [65], .op .eq, .binding [66]]).isSome = false := by decide
 
+/-- The evaluator the engine builds is the parse tree of the expression: whenever `NewEvaluator` accepts the
+    tokens of a HAVING clause, the expression it builds is the reference reading of those tokens
+    (`BW.Spec.specH`: comparisons are atoms, `NOT` covers everything to its right, `AND` / `OR` nest to the
+    right) — of all of them, or of all but the one closing parenthesis `NewEvaluator` tolerates at the end (the
+    grammar never derives such a list). Where the engine refuses a token list the reference can read (a
+    comparison without parentheses followed by `AND` / `OR`) the statement is rejected; an implementation that
+    accepts it is compared with the reference's reading (tie). -/
+theorem evaluator_is_the_parse_tree (toks : List HTok) (e : HExpr) (h : newEvaluator toks = some e) :
+    BW.Spec.specEvaluator toks = some e ∨ BW.Spec.specH (toks.length + 1) toks = some (e, [.rpar]) :=
+  BW.Proofs.Having.evaluator_is_parse_tree toks e h
+
+/-- Non-vacuity: `(?a = ?b) and not ?c < ?d` is accepted and read as `and (= a b) (not (< c d))`; the reference
+    also reads `?a = ?b and ?c = ?d`, which the engine refuses. -/
+example : (newEvaluator [.lpar, .binding [97], .op .eq, .binding [98], .rpar, .and, .not, .binding [99], .op .lt, .binding [100]]).isSome = true ∧
+    (BW.Spec.specEvaluator [.binding [97], .op .eq, .binding [98], .and, .binding [99], .op .eq, .binding [100]]).isSome = true := by decide
+
 end BW.Props.C13
 
 #print axioms BW.Props.C13.having_filter
@@ -45,3 +62,4 @@ end BW.Props.C13
 #print axioms BW.Props.C13.compare_int_numeric
 #print axioms BW.Props.C13.other_kind_never_holds
 #print axioms BW.Props.C13.int_vs_text_never_holds
+#print axioms BW.Props.C13.evaluator_is_the_parse_tree
